@@ -16,6 +16,8 @@ pub use http_body::{Body, Frame};
 pub mod verif {
     /// total number of body bytes appended to a `Collected` buffer since the harness reset it
     pub static mut BUFFERED: usize = 0;
+    /// the budget the last `Limited` was built with (what first-party code handed over)
+    pub static mut LIMIT_SEEN: Option<usize> = None;
 }
 
 #[derive(Debug)]
@@ -33,6 +35,7 @@ pub struct Limited<B> {
 }
 impl<B> Limited<B> {
     pub fn new(inner: B, limit: usize) -> Self {
+        unsafe { verif::LIMIT_SEEN = Some(limit) };
         Limited { remaining: limit, inner }
     }
 }
